@@ -238,7 +238,9 @@ fn check(ctx: &mut Ctx) {
     ctx.require("G2Impl/pk-point");
     ctx.require("G2Impl/sig-point");
     ctx.require("G2Impl/mask");
-    if ctx.worker != 0 {
+    // one offline checker over ALL logs (of every process and every build): worker 0 of the
+    // release build
+    if ctx.worker != 0 || cfg!(debug_assertions) {
         return;
     }
     let dir = ctx.work_dir("logs");
